@@ -263,11 +263,11 @@ def gen_cases(rng, tier):
         cu = [rng.choice(['obj', 'obj', 'code']), u]
         ct = [rng.choice(['obj', 'obj', 'code']), t]
         r = rng.random()
-        if r < 0.03:
-            ct = [cu[0], u]                       # identical currencies
-        elif r < 0.05:
+        if r < 0.06:
+            ct = [rng.choice(['obj', 'code']), u]   # identical currencies, any mix of spellings
+        elif r < 0.08:
             cu = rng.choice([['unknown', 'CHF'], ['unknown', 'XXQ'], ['bad', 'int'], ['bad', 'none']])
-        elif r < 0.07:
+        elif r < 0.10:
             ct = rng.choice([['unknown', 'GBP'], ['unknown', ''], ['bad', 'float'], ['bad', 'money']])
         r = rng.random()
         if r < 0.80:
